@@ -65,6 +65,9 @@ Step(s, D, ev) ==
            LET hit == s.ix.cycC.ver = s.ix.version
                val == IF hit THEN s.ix.cycC.val ELSE ImplCycleNames(s.ix)
            IN  [s EXCEPT !.ix.cycC = [ver |-> s.ix.version, val |-> val], !.ans = val]
+      \* didOpen of a document whose text is what is on disk (an UNMODIFIED document): main.rs analyses it like any other
+      \* notification, i.e. the file's definitions are removed and registered again -- at the END of their vectors
+      [] ev.t = "open" -> [s EXCEPT !.ix = AnalyzeFnD(s.ix, D, ev.f, DiskOf[ev.f], TRUE), !.ans = <<>>]
       [] ev.t = "close" -> [s EXCEPT !.ix = DropCaches(@, ev.f), !.ans = <<>>]
       [] ev.t = "evict" -> [s EXCEPT !.ix = DropCaches(@, ev.f), !.ans = <<>>]
 
@@ -88,6 +91,9 @@ Events(s) ==
     \cup (IF "cycles" \in EventKinds THEN { Ev("cycles", "-", 0, "-") } ELSE {})
     \cup (IF "close" \in EventKinds
           THEN { Ev("close", f, 0, "-") : f \in { g \in Files : s.ix.cached[g] # NoMod /\ s.ix.cached[g] = DiskOf[g] } } ELSE {})
+    \cup (IF "open" \in EventKinds
+          THEN { Ev("open", f, 0, "-") : f \in { g \in Files : DiskOf[g] # NoMod /\ DiskOf[g].valid
+                                                               /\ (s.ix.cached[g] = NoMod \/ s.ix.cached[g] = DiskOf[g]) } } ELSE {})
     \cup (IF "evict" \in EventKinds
           THEN { Ev("evict", f, 0, "-") : f \in { g \in Files : s.ix.cached[g] # NoMod /\ s.ix.cached[g] = DiskOf[g] } } ELSE {})
     \cup (IF "scan" \in EventKinds /\ ~s.scanned THEN { Ev("scan", "-", 0, "-") } ELSE {})
@@ -245,11 +251,10 @@ HVersions7 ==
                           \* the same fixture NAMES with and without a dependency cycle between them
                           Module(<<PlainDef("n", <<"x">>), PlainDef("x", <<"n">>)>>),
                           Module(<<PlainDef("n", <<"x">>), PlainDef("x", <<>>)>>) >>
-         [] f = "t" -> << Module(<<Test("test_1", <<"n">>)>>),
-                          Module(<<PlainDef("x", <<>>), Test("test_1", <<"n", "x">>)>>),
-                          \* the test module imports the fixture BY NAME itself (`from ..helperh import n`): whatever a server
-                          \* makes of a module's own imports must survive closing the unmodified document
-                          Module(<<Spelled(Imp("h", "n"), 2), Test("test_1", <<"n", "x">>)>>) >>
+         \* the test module ON DISK imports the fixture BY NAME itself (`from ..helperh import n`): whatever a server makes of
+         \* a module's own imports must survive closing the unmodified document (close events need the disk version)
+         [] f = "t" -> << Module(<<Spelled(Imp("h", "n"), 2), Test("test_1", <<"n">>)>>),
+                          Module(<<PlainDef("x", <<>>), Test("test_1", <<"n", "x">>)>>) >>
          [] f = "h" -> << Module(<<PlainDef("n", <<>>)>>),
                           Module(<<PlainDef("n", <<>>), Star("c")>>),
                           Module(<<PlainDef("x", <<>>)>>),
@@ -276,5 +281,5 @@ H2Versions ==
          [] f = "t0" -> << Module(<<Test("test_1", <<"n", "x">>)>>) >>
          [] f = "t1" -> << Module(<<Test("test_1", <<"n", "x">>)>>) >>]
 H2Disk == [f \in H2Files |-> H2Versions[f][1]]
-HKinds2 == {"edit", "avail", "goto", "imported", "close"}
+HKinds2 == {"edit", "avail", "goto", "imported", "close", "open"}
 =============================================================================
